@@ -1,3 +1,4 @@
+// Package c11: rsync operations reconstruct the source and stay within the old files.
 package c11
 
 import (
@@ -20,44 +21,79 @@ func (p *memPool) GetReadSeeker(i int64) (io.ReadSeeker, error) {
 }
 func (p *memPool) Close() error { return nil }
 
-func H_smoke() {
+// H_witness is the vacuity witness: it must be reported as violated.
+func H_witness() {
 	a := rt.Byte("a")
-	b := rt.Byte("b")
-	if a > 10 {
-		rt.Assert(a+b != 7 || b >= 253 || a < 10, "dummy")
-	}
-	rt.Assert(uint32(a)+uint32(b) < 510, "sum")
+	rt.Assume(a > 3)
+	rt.Assert(a != 77, "witness")
 	rt.Reach("end")
 }
 
-func H_roundtrip() {
+func restrict(b []byte, alpha int) {
+	if alpha > 0 {
+		for _, c := range b {
+			rt.Assume(int(c) < alpha)
+		}
+	}
+}
+
+// H_ops: the full property on symbolic old files / new content.
+// Params: bs, n0,n1,n2 (old file lengths, -1 = absent), nnew, pref, alpha (0 = all 256 byte values).
+func H_ops() {
 	bs := rt.Param("bs")
-	nold := rt.Param("nold")
-	nnew := rt.Param("nnew")
+	alpha := rt.Param("alpha")
 	ctx := wsync.NewContext(bs)
 	pool := &memPool{}
 	var hashes []wsync.BlockHash
-	f := rt.Bytes("old", nold)
-	pool.files = append(pool.files, f)
-	err := ctx.CreateSignature(context.Background(), 0, bytes.NewReader(f), func(h wsync.BlockHash) error {
-		hashes = append(hashes, h)
-		return nil
-	})
-	rt.Assert(err == nil, "signature ok")
-	neu := rt.Bytes("new", nnew)
+	for i, name := range []string{"n0", "n1", "n2"} {
+		n := rt.Param(name)
+		if n < 0 {
+			break
+		}
+		f := rt.Bytes("old"+string(rune('0'+i)), n)
+		restrict(f, alpha)
+		pool.files = append(pool.files, f)
+		err := ctx.CreateSignature(context.Background(), int64(i), bytes.NewReader(f), func(h wsync.BlockHash) error {
+			hashes = append(hashes, h)
+			return nil
+		})
+		rt.Assert(err == nil, "signature ok")
+	}
+	neu := rt.Bytes("new", rt.Param("nnew"))
+	restrict(neu, alpha)
+	pref := int64(rt.Param("pref"))
+
 	var ops []wsync.Operation
-	err = ctx.ComputeDiff(bytes.NewReader(neu), wsync.NewBlockLibrary(hashes), func(op wsync.Operation) error {
+	err := ctx.ComputeDiff(bytes.NewReader(neu), wsync.NewBlockLibrary(hashes), func(op wsync.Operation) error {
 		if op.Type == wsync.OpData {
 			op.Data = append([]byte(nil), op.Data...)
 		}
 		ops = append(ops, op)
 		return nil
-	}, -1)
+	}, pref)
 	rt.Assert(err == nil, "diff ok")
+
 	var out bytes.Buffer
-	for _, op := range ops {
+	for i, op := range ops {
+		switch op.Type {
+		case wsync.OpBlockRange:
+			rt.Assert(op.FileIndex >= 0 && op.FileIndex < int64(len(pool.files)), "range names an old file")
+			if op.FileIndex >= 0 && op.FileIndex < int64(len(pool.files)) {
+				nb := (int64(len(pool.files[op.FileIndex])) + int64(bs) - 1) / int64(bs)
+				rt.Assert(op.BlockIndex >= 0 && op.BlockSpan >= 1 && op.BlockIndex+op.BlockSpan <= nb, "range addresses existing blocks")
+			}
+			if i > 0 && ops[i-1].Type == wsync.OpBlockRange && ops[i-1].FileIndex == op.FileIndex {
+				rt.Assert(ops[i-1].BlockIndex+ops[i-1].BlockSpan != op.BlockIndex, "consecutive ranges merged")
+			}
+		case wsync.OpData:
+			rt.Assert(len(op.Data) <= wsync.MaxDataOp, "data op within MaxDataOp")
+			rt.Assert(len(op.Data) > 0 || i == 0, "empty data op only leading")
+		default:
+			rt.Fail("unknown op type")
+		}
 		rt.Assert(ctx.ApplySingle(&out, pool, op) == nil, "apply ok")
 	}
 	rt.Assert(rt.BytesEqual(out.Bytes(), neu), "replay == new")
+	rt.Observe("ops", len(ops))
 	rt.Reach("end")
 }
